@@ -22,7 +22,7 @@ DEFAULT = dict(
     nb=(1, 3), p_par=0.0, p_fwd=0.0, p_lazy=0.3, hist=None, levels=4, p_raise=0.07, p_retexc=0.02, p_sync=0.2, p_wild=0.1,
     n_actors=(1, 3), actor_ops=(1, 5), p_redisp=0.0, p_spawn=0.0, p_busy=0.05, p_bus=0.08, modes=['fire', 'await', 'await', 'later'],
     handlers_per=(0, 1, 1, 2), prog_len=(0, 3), p_strpat=0.15, p_idle=0.0, p_explicit_parent=0.0, jitter=True, actor_await=0.5,
-    cross_bus=True, exc_kinds=EXCS, p_actor_redisp=0.0, p_age=0.0,
+    cross_bus=True, exc_kinds=EXCS, p_actor_redisp=0.0, p_age=0.0, p_access=0.25,
 )
 
 
@@ -82,6 +82,8 @@ def random_scenario(rng: random.Random, c: dict) -> dict:
         for _ in range(rng.randint(1, nb + 1)):
             a, b = rng.randrange(nb), rng.randrange(nb)
             pat = '*' if rng.random() < 0.7 else rng.randrange(c['levels'])
+            if pat != '*' and rng.random() < 0.4:
+                pat = f'E{pat}'  # forward registered under the type-name string instead of the class
             key = (a, b, 'w' if pat == '*' else 't')
             if (a, b) in seen and rng.random() < 0.7:
                 continue  # usually one edge per (src, dst); sometimes a second route to the same bus (typed + wildcard, or twice)
@@ -107,7 +109,7 @@ def random_scenario(rng: random.Random, c: dict) -> dict:
             elif x < c['p_idle'] + c['p_actor_redisp'] and nd:
                 ops.append(['redisp', rng.randrange(nd), rng.randrange(nb) if rng.random() < 0.0 else -1])
             elif x < c['p_idle'] + c['p_actor_redisp'] + 0.12 and nd:
-                ops.append(['await', rng.randrange(nd)])
+                ops.append(['access' if rng.random() < c.get('p_access', 0.0) else 'await', rng.randrange(nd)])
             elif x < c['p_idle'] + c['p_actor_redisp'] + 0.24:
                 ops.append(['sleep', rng.choice(DELAYS)])
             else:
